@@ -3,4 +3,5 @@ import LA.Model.Util
 import LA.Props.C01
 import LA.Props.C05
 import LA.Props.C08
+import LA.Props.C12
 import LA.Props.C17
